@@ -1159,6 +1159,19 @@ impl<'a> BenchContext<'a> {
         let sample_count = time_samples.len();
         let sample_size = self.samples.sample_size;
 
+        // Nothing was recorded (e.g. `sample_count = 0` or `max_time = 0`), so
+        // there is nothing to divide by and every statistic is zero.
+        if sample_count == 0 {
+            return Stats {
+                sample_count: 0,
+                iter_count: 0,
+                time: Default::default(),
+                max_alloc: Default::default(),
+                alloc_tallies: Default::default(),
+                counts: Default::default(),
+            };
+        }
+
         let total_count = self.samples.iter_count();
 
         let total_duration = self.samples.total_duration();
